@@ -1666,9 +1666,28 @@ func (r *RetPoint) ReachableUnder(reach map[*ssa.BasicBlock]bool, cut map[Edge]b
 	if r.Join == nil {
 		return true
 	}
+	thr := threadInfo(r.At.Parent())
 	for _, s := range r.At.Succs {
 		if (s == r.Join || r.via[s]) && !cut[Edge{From: r.At, To: s}] {
-			return true
+			// when the branch at At is decided by where control came from, the way into s must itself be
+			// open: some predecessor that is reachable, whose edge is not cut, and that forces s
+			forced := false
+			for _, p := range r.At.Preds {
+				if _, ok := thr[Edge{p, r.At}]; ok {
+					forced = true
+				}
+			}
+			if !forced {
+				return true
+			}
+			for _, p := range r.At.Preds {
+				if only, ok := thr[Edge{p, r.At}]; ok && only == s && reach[p] && !cut[Edge{From: p, To: r.At}] {
+					return true
+				}
+				if _, ok := thr[Edge{p, r.At}]; !ok && reach[p] && !cut[Edge{From: p, To: r.At}] {
+					return true // an undecided way in
+				}
+			}
 		}
 	}
 	return false
